@@ -9,6 +9,7 @@ TB_DEC="Trusts wasmparser 0.235 (decoder, validator) and wasmprinter 0.235 as in
 CHECKS={
  "C01": ("exploration",EX,"Every in-scope operator of the wasmparser operator table x immediate domains, every value type x syntactic position, every subset of <=1 (quick) / <=2 (thorough) section-shape fragments and (thorough) the repository corpus is parsed and re-encoded by the real library; the output must validate. Exhaustive within those families; inputs that do not validate are excluded and counted.",TB_DEC,"DESIGN.md §2 C01"),
  "C02": ("exploration",EX,"Same families as C01; the decoded output (text of all non-custom sections, decoded name maps, ordered custom-section list) must equal the decoded input.",TB_DEC,"DESIGN.md §2 C02"),
+ "C03": ("fault_enumeration","exhaustive enumeration of the 1-byte mutation neighbourhood (substitution, deletion, insertion), all prefixes and a small 2-byte neighbourhood of a bounded family of valid binaries, fed to the three real parsers in isolated worker processes","For 338 (quick) / 406 (thorough) seed binaries (core modules for every section/feature shape, components, nesting ladders, repository corpus) every truncation, every single-byte deletion/insertion and every single-byte substitution (9-value alphabet quick, all 255 values thorough; small 2-byte neighbourhood for seeds <= 64 bytes) is parsed by Module::parse (both flag values) and Component::parse; a panic (caught, signature = source function + message) or a dead worker (stack overflow / allocation failure, attributed to the single input) is a violation. 'Any byte string' is decided on exactly this neighbourhood; nothing is claimed outside it.","Workers run with an 8 MiB stack and a 4 GiB address-space limit. Caps (deep ladders and >4 KiB seeds use reduced alphabets) are listed in the evidence.","DESIGN.md §2 C03"),
  "C05": ("model_checking",MC,"Every state of the C06/C07/C08 history spaces (depth 2 quick / 3 thorough) is encoded three times; all encodings must be byte-identical and none may panic. Findings caused by re-applying the ID mapping are listed in known_findings.json per renumbering operation; histories without such an operation must be clean.",TB_DEC+" Instrumentation plans are covered once the plan explorer exists (see notes).","DESIGN.md §2 C05"),
  "C06": ("model_checking",MC,"All histories of length <=2 (quick) / <=3 (thorough) over add local/import function, delete, local->import, import->local, injected call/return_call/ref.func through iterator and modifier, add/delete export, on 9 base modules that separate every reference-site kind; in every state each function reference must designate the entity whose ID the caller holds, the live-entity multiset must match and the output must validate.",TB_DEC+" Identity tokens (import names, marker constants) are the harness's own convention.","DESIGN.md §2 C06"),
  "C07": ("model_checking",MC,"All histories (depth 2/3) over add global (module- and iterator-level, const / global.get initialiser), add imported global, delete, replace initialiser, injected global.get/set on 8 bases (code, global init, data offset, element offset, table init, exports as separate variants).",TB_DEC+" global.atomic.* operators are not yet in the bases (see notes).","DESIGN.md §2 C07"),
